@@ -279,6 +279,13 @@ class Tagger:
             same_units = lt is not None and rt is not None and {lt, rt} == {st.units, st.other_units} and all(isinstance(x, ast.Name) for x in (test.left, test.comparators[0]))
         if same_units and val:
             st.alias[st.other_units] = st.units
+        # the false edge of `self._units != other._units` states the same equality
+        diff_units = s in (f"self._units != {self.other}._units", f"{self.other}._units != self._units")
+        if not diff_units and isinstance(test, ast.Compare) and len(test.ops) == 1 and isinstance(test.ops[0], ast.NotEq):
+            lt, rt = self.units_tag(st, test.left), self.units_tag(st, test.comparators[0])
+            diff_units = lt is not None and rt is not None and {lt, rt} == {st.units, st.other_units} and all(isinstance(x, ast.Name) for x in (test.left, test.comparators[0]))
+        if diff_units and not val:
+            st.alias[st.other_units] = st.units
         if s in (f"self._check({self.other})", f"isinstance({self.other}, PlainQuantity)", f"isinstance({self.other}, self.__class__)", f"_is_quantity({self.other})"):
             st.other_is_qty = val
         if s == f"zero_or_nan({self.other}, True)" and val:
